@@ -185,12 +185,20 @@ def target_skygrid(case, rng):
         {"id": "gmrf", "type": "GMRF", "x": "field", "precision": P("precision", [float(gm.loguniform(rng, 0.5, 5))])},
         {"id": "prior.precision", "type": "Distribution", "distribution": "torch.distributions.Gamma", "x": "precision", "parameters": {"concentration": 1.5, "rate": 1.0}},
         {"id": "joint", "type": "JointDistributionModel", "distributions": ["skygrid", "gmrf", "prior.precision"]}]
+    unres = case["seed"] % 2 == 0
+    if unres:
+        # the chain torchtree-cli writes: the precision is exp(u) of a free parameter u and the target carries the Jacobian of that transform
+        # (the transformed parameter itself is a term of the joint): the free parameters of the chain are (field, u)
+        tau = spec[-3]["precision"]["tensor"][0]
+        spec[-3]["precision"] = {"id": "precision", "type": "TransformedParameter", "transform": "torch.distributions.ExpTransform", "x": P("precision.unres", [float(np.log(tau))])}
+        spec[-1]["distributions"].append("precision")
     ops = [{"id": "op.block", "type": "GMRFPiecewiseCoalescentBlockUpdatingOperator", "coalescent": "skygrid", "gmrf": "gmrf", "weight": 3.0, "scaler": float(rng.uniform(1.2, 3.0)) if case["seed"] % 3 else 1.0,  # 1.0: documented value (the precision is then not proposed until tuning moves the scaler)
             "disable_adaptation": not case["adapt"]},
-           op("op.scale.precision", "ScalerOperator", ["precision"], rng, case["adapt"], scaler=float(rng.uniform(0.4, 0.9))),
+           (op("op.slide.precision", "SlidingWindowOperator", ["precision.unres"], rng, case["adapt"], width=float(rng.uniform(0.3, 1.5))) if unres else
+            op("op.scale.precision", "ScalerOperator", ["precision"], rng, case["adapt"], scaler=float(rng.uniform(0.4, 0.9)))),
            op("op.slide.field", "SlidingWindowOperator", ["field"], rng, case["adapt"], width=float(gm.loguniform(rng, 0.2, 2)))]
     meta = {"sampling": s, "coalescent": c, "cutoff": cutoff, "G": G}
-    return spec, ops, ["field", "precision"], meta
+    return spec, ops, ["field", "precision.unres" if unres else "precision"], meta
 
 
 # ---------------------------------------------------------------- helpers
@@ -678,7 +686,8 @@ def check_records(case, dic, shadow, spec, records, meta, V, C, torch):
             except Exception:
                 transformed = False
             rel = max(float(((ref_state[i] - after[i]).abs() / ref_state[i].abs().clamp_min(1e-300)).max()) for i in bad)
-            if transformed and rel <= 1e-15:
+            absd = max(float((ref_state[i] - after[i]).abs().max()) for i in bad)
+            if transformed and (rel <= 1e-15 or absd <= 1e-15):  # (last bits: relative to the value, or - next to zero, where log(exp(u)) has an absolute error of one ulp of 1 - absolute)
                 V.append(tt.viol("C15:reject-not-bit-identical:operator-on-a-transformed-parameter:restored-through-the-inverse-transform",
                                  "%s: after reject parameter %s is %s, it was %s before the proposal (relative difference %.2g)" % (where, bad[0], after[bad[0]].tolist(), ref_state[bad[0]].tolist(), rel), **detail))
                 bad = []
@@ -783,15 +792,18 @@ def independent_hastings(r, tname, ss, cnt, where, detail, V, torch):
     if tname.startswith("GMRF"):
         # parameters: [field, precision]
         # (read from the state of the chain, not from the operator's own parameter list)
-        g0, t0 = r["before"]["field"].numpy(), float(r["before"]["precision"])
-        g1, t1 = r["proposed"]["field"].numpy(), float(r["proposed"]["precision"])
+        unres = "precision" not in r["before"]
+        g0, t0 = r["before"]["field"].numpy(), float(r["before"]["precision"]) if not unres else math.exp(float(r["before"]["precision.unres"]))
+        g1, t1 = r["proposed"]["field"].numpy(), float(r["proposed"]["precision"]) if not unres else math.exp(float(r["proposed"]["precision.unres"]))
         sc = r["scaler"]
         ratio = t1 / t0
         if not (1 / sc * (1 - 1e-9) <= ratio <= sc * (1 + 1e-9)):
             V.append(tt.viol("C15:proposal-support:" + tname, "%s: precision ratio %.6g outside (1/%.4g, %.4g)" % (where, ratio, sc, sc), **detail))
             return "violation"
         try:
-            return block_update_log_hastings(g0, g1, t0, t1, ss, cnt)
+            # over the free parameters of the chain: when the precision is exp(u), the move (symmetric in the precision) has density
+            # q(u'|u) = q(tau'|tau) tau', so that log q(u|u') - log q(u'|u) carries u - u' on top of the field part
+            return block_update_log_hastings(g0, g1, t0, t1, ss, cnt) + ((math.log(t0) - math.log(t1)) if unres else 0.0)
         except np.linalg.LinAlgError:
             return None
     return None
